@@ -165,3 +165,33 @@ Fixpoint listing_T (prefix : string) (t : T) : list (string * option (list byte)
         | TD _ => (path, None) :: listing_T path (snd e)
         end) ents
   end.
+
+(* ---- conditions of the round-trip theorem, as computable checks ---- *)
+(* every file that marshalManifest visits below d holds stored segments only, and its recursion
+   (bounded by the table size) never reaches its bound at a directory *)
+Definition is_sto (x : seg) : bool := match x with Sto _ _ _ _ => true | Mem _ _ => false end.
+Fixpoint ready (mb fuel : nat) (s : fs (Conc mb)) (d : nat) : bool :=
+  match fuel with
+  | O => false
+  | S f => forallb (fun e => if is_dir (Conc mb) s (snd e) then ready mb f s (snd e)
+                             else forallb is_sto (file_segs mb s (snd e)))
+                   (dir_ents (Conc mb) s d)
+  end.
+
+Fixpoint has_char (c : ascii) (s : string) : bool :=
+  match s with EmptyString => false | String x r => Ascii.eqb x c || has_char c r end.
+Definition bytes_beq (d d' : list byte) : bool :=
+  Nat.eqb (List.length d) (List.length d') && forallb (fun p => Nat.eqb (fst p) (snd p)) (combine d d').
+(* a locator: no separator characters, and the size of its block after the first '+' *)
+Definition loc_ok_b (d : list byte) (l : string) : bool :=
+  negb (has_char ":"%char l) && negb (has_char " "%char l) && negb (has_char (ascii_of_N 10) l) &&
+  match splitn3 "+"%char l with
+  | _ :: sz :: _ => match parse_dec sz with Some n => Nat.eqb n (List.length d) | None => false end
+  | _ => false
+  end.
+(* every entry well formed; equal locators name equal blocks *)
+Definition tab_ok_b (tab : list (list byte * string)) : bool :=
+  forallb (fun e => loc_ok_b (fst e) (snd e)) tab &&
+  forallb (fun e => forallb (fun e' => negb (String.eqb (snd e) (snd e')) || bytes_beq (fst e) (fst e')) tab) tab.
+Definition in_tab_b (tab : list (list byte * string)) (blks : list (list byte)) : bool :=
+  forallb (fun d => existsb (fun e => bytes_beq (fst e) d) tab) blks.
